@@ -245,6 +245,10 @@ def oracle(case):
                     bad = "framework added header %s although it was %s" % (k, "present" if k in names else "not its to add")
         if not bad and int(calls[0][0][:3]) != res.status_code:
             bad = "status %s differs from the response object's %d" % (calls[0][0], res.status_code)
+        import http.client
+        code = int(calls[0][0][:3])
+        if not bad and code in http.client.responses and calls[0][0] != "%d %s" % (code, http.client.responses[code]):
+            bad = "status line %r, the registered phrase of %d is %r" % (calls[0][0], code, http.client.responses[code])
     else:
         value, calls, chunks = detail
         status = int(calls[0][0][:3])
@@ -277,6 +281,43 @@ def oracle(case):
     if bad:
         return [Violation("c05:" + t[2][0], case, bad)]
     return []
+
+
+def extra_oracles(rng, tier):
+    """response objects whose status is settled only when they are sent (a 200 made partial becomes 206): the status
+    line given to the server carries the code with its registered phrase, the headers of the object unchanged"""
+    import http.client
+    import io
+    from poorwsgi.response import Response, GeneratorResponse, FileObjResponse, TextResponse
+    out, n = [], 0
+    makers = {
+        "Response": lambda: Response(b"0123456789", headers={"X-K": "v"}),
+        "TextResponse": lambda: TextResponse("0123456789"),
+        "GeneratorResponse": lambda: GeneratorResponse(iter([b"01234", b"56789"]), content_length=10),
+        "FileObjResponse": lambda: FileObjResponse(io.BytesIO(b"0123456789")),
+    }
+    for name, make in makers.items():
+        for ranges, want in (([(2, 5)], 206), ([(None, 3)], 206), ([(4, None)], 206), ([(20, 30)], 416), ([], 200)):
+            for setter in (None, 201, 404):
+                res = make()
+                if setter:
+                    res.status_code = setter
+                res.make_partial(ranges)
+                calls = []
+                n += 1
+                try:
+                    body = b"".join(res(lambda s, h: calls.append((s, h))))
+                except Exception as err:
+                    if want == 416 and not setter:
+                        continue        # the 416 of an unsatisfiable range is raised as an HTTP error: C07's business
+                    out.append(Violation("c05-partial-raises", "%s %r status=%s" % (name, ranges, setter), "raised %r" % (err,)))
+                    continue
+                code = int(calls[0][0][:3])
+                if calls[0][0] != "%d %s" % (code, http.client.responses[code]):
+                    out.append(Violation("c05-status-line", "%s made partial with %r, status set to %s" % (name, ranges, setter),
+                                         "status line %r, the registered phrase of %d is %r"
+                                         % (calls[0][0], code, http.client.responses[code])))
+    return out, {"evaluations": n, "distinct_nontrivial": n}
 
 
 def classify(case, obs):
